@@ -255,10 +255,12 @@ func (u *uniOracle) describes(o *UObj, g gotypes.Type, ctx string) {
 			u.structural(o, und, ctx+" "+x.String(), true)
 		}
 		// method set: explicitly declared methods (interfaces: checked structurally above)
-		if _, isIface := und.(*gotypes.Interface); !isIface && !generic {
+		if _, isIface := und.(*gotypes.Interface); !isIface {
+			// a generic declaration is described by the methods of the declaration itself (x may be an instantiation)
+			decl := x.Origin()
 			want := map[string]*gotypes.Func{}
-			for i := 0; i < x.NumMethods(); i++ {
-				want[x.Method(i).Name()] = x.Method(i)
+			for i := 0; i < decl.NumMethods(); i++ {
+				want[decl.Method(i).Name()] = decl.Method(i)
 			}
 			u.methodSet(o, want, ctx+" "+x.String())
 		}
